@@ -130,4 +130,228 @@ Proof.
     apply Req_le. apply sumf_ext. intros ns Hns. now rewrite step_eq.
 Qed.
 
+(* ------------------------------------------------------------------ *)
+(* 2. QMDP never under-estimates                                       *)
+(* ------------------------------------------------------------------ *)
+Record wfp : Prop := {
+  wp_mdp : wf m;
+  wp_g1 : gamma m < 1;
+  wp_nA : (0 < nAp)%nat;
+  wp_ob : forall a ns o, (a < nAp)%nat -> (ns < nSp)%nat -> (o < nOp)%nat -> 0 <= Ob p a ns o;
+  wp_obs : forall a ns, (a < nAp)%nat -> (ns < nSp)%nat -> sumf nOp (Ob p a ns) = 1;
+  wp_tO : forall a o s ns, (a < nAp)%nat -> (o < nOp)%nat -> (s < nSp)%nat -> (ns < nSp)%nat ->
+          tO a o s ns = Pm m s a ns * Ob p a ns o;
+  wp_rM : forall s a, (s < nSp)%nat -> (a < nAp)%nat -> rM s a = Rm m s a
+}.
+
+Lemma wfp_wf0 : wfp -> wf0.
+Proof.
+  intros W. constructor; [apply (wf_gamma0 _ (wp_mdp W))|].
+  intros a o s ns Ha Ho Hs Hns. rewrite (wp_tO W) by auto.
+  apply Rmult_le_pos; [apply (wf_Pnn _ (wp_mdp W)); auto|apply (wp_ob W); auto].
+Qed.
+
+(* one-step identity: reward + gamma * sum_o <step u a o, V> = sum_s Q_V(s,a) u(s) *)
+Lemma qstep_id V u a :
+  wfp -> (a < nAp)%nat ->
+  dot u (fun s => rM s a) +
+  gamma m * sumf nOp (fun o => sumf nSp (fun ns => stepf u a o ns * V ns)) =
+  sumf nSp (fun s => Qval m V s a * u s).
+Proof.
+  intros W Ha. unfold PBVI.dot, PBVI.stepf. numR.
+  rewrite <- (dot_backup nSp nOp u (fun s => rM s a) (fun o s ns => tO a o s ns) (fun _ => V) (gamma m)).
+  apply sumf_ext. intros s Hs. rewrite Qval_R, (wp_rM W) by auto.
+  rewrite Rmult_comm. f_equal. f_equal. f_equal.
+  rewrite sumf_swap. apply sumf_ext. intros ns Hns.
+  transitivity (sumf nOp (fun o => (Pm m s a ns * V ns) * Ob p a ns o)).
+  { apply sumf_ext. intros o Ho. rewrite (wp_tO W) by auto. lra. }
+  rewrite sumf_scal, (wp_obs W) by auto. lra.
+Qed.
+
+Lemma qmdp_step k V u a :
+  wfp -> (forall u', nonneg u' -> Wopt k u' <= sumf nSp (fun s => u' s * V s)) ->
+  nonneg u -> (a < nAp)%nat ->
+  dot u (fun s => rM s a) + gamma m * sumf nOp (fun o => Wopt k (step u a o))
+  <= sumf nSp (fun s => Qval m V s a * u s).
+Proof.
+  intros W H Hu Ha. rewrite <- (qstep_id V u a W Ha).
+  apply Rplus_le_compat_l, Rmult_le_compat_l; [apply (wf_gamma0 _ (wp_mdp W))|].
+  apply sumf_le. intros o Ho.
+  eapply Rle_trans; [apply (H (step u a o)); apply step_nonneg; auto using wfp_wf0|].
+  apply Req_le. apply sumf_ext. intros ns Hns. now rewrite step_eq.
+Qed.
+
+Lemma Vk_S k s :
+  wfp -> (s < nSp)%nat ->
+  maxf nAp (fun _ => true) (Qval m (Vk p k) s) = Some (Vk p (S k) s).
+Proof.
+  intros W Hs. cbn [Vk]. rewrite retab_eq by auto.
+  destruct (maxf_all_some nAp (Qval m (Vk p k) s) (wp_nA W)) as (x & Hx). now rewrite Hx.
+Qed.
+
+Lemma max_dot_le (Qt : nat -> nat -> R) (V u : nat -> R) x :
+  nonneg u -> (forall s, (s < nSp)%nat -> maxf nAp (fun _ => true) (Qt s) = Some (V s)) ->
+  maxf nAp (fun _ => true) (fun a => sumf nSp (fun s => Qt s a * u s)) = Some x ->
+  x <= sumf nSp (fun s => u s * V s).
+Proof.
+  intros Hu HV Hx. eapply maxf_le_bound; [exact Hx|]. intros a Ha _.
+  apply sumf_le. intros s Hs. rewrite Rmult_comm.
+  apply Rmult_le_compat_l; [apply Hu; auto|]. eapply maxf_ge; [apply HV; auto|auto|reflexivity].
+Qed.
+
+Lemma Wopt_le_Vk k : wfp -> forall u, nonneg u -> Wopt k u <= sumf nSp (fun s => u s * Vk p k s).
+Proof.
+  intros W. induction k; intros u Hu.
+  - cbn [PBVI.Wopt Vk]. numR. rewrite sumf_0; [lra|]. intros; lra.
+  - rewrite Wopt_S.
+    destruct (maxf_all_some nAp (fun a => dot u (fun s => rM s a) +
+        gamma m * sumf nOp (fun o => Wopt k (step u a o))) (wp_nA W)) as (x & Hx).
+    rewrite Hx. cbn [odflt].
+    destruct (maxf_all_some nAp (fun a => sumf nSp (fun s => Qval m (Vk p k) s a * u s)) (wp_nA W))
+      as (y & Hy).
+    apply Rle_trans with y.
+    + eapply maxf_mono; [exact Hx|exact Hy|]. intros a Ha _. apply qmdp_step; auto.
+    + apply (max_dot_le (Qval m (Vk p k)) (Vk p (S k)) u y Hu); auto.
+      intros s Hs. apply Vk_S; auto.
+Qed.
+
+(* the (k+1)-horizon optimum is at most the QMDP value built from k-step value iteration *)
+Theorem qmdp_upper k u :
+  wfp -> nonneg u -> Wopt (S k) u <= odflt 0 (qmdp_value p (Qval m (Vk p k)) u).
+Proof.
+  intros W Hu. rewrite Wopt_S. unfold qmdp_value, qmdp_action_value.
+  destruct (maxf_all_some nAp (fun a => dot u (fun s => rM s a) +
+      gamma m * sumf nOp (fun o => Wopt k (step u a o))) (wp_nA W)) as (x & Hx).
+  destruct (maxf_all_some nAp (fun a => sumf nSp (fun s => Qval m (Vk p k) s a * u s)) (wp_nA W))
+    as (y & Hy).
+  rewrite Hx. numR. rewrite Hy. cbn [odflt].
+  eapply maxf_mono; [exact Hx|exact Hy|]. intros a Ha _. apply qmdp_step; auto.
+  apply Wopt_le_Vk; auto.
+Qed.
+
+(* PBVI after j sweeps is below the j-step QMDP value (no expectimax needed) *)
+Corollary pbvi_le_qmdp j al u :
+  wfp -> gen (S j) al -> nonneg u ->
+  dot u al <= odflt 0 (qmdp_value p (Qval m (Vk p j)) u).
+Proof.
+  intros W G Hu. eapply Rle_trans; [apply (pbvi_lower (S j) al (wfp_wf0 W) G u Hu)|apply qmdp_upper; auto].
+Qed.
+
+(* ------------------------------------------------------------------ *)
+(* 3. horizon tail                                                     *)
+(* ------------------------------------------------------------------ *)
+Definition mass (u : nat -> R) : R := sumf nSp u.
+
+Lemma mass_nonneg u : nonneg u -> 0 <= mass u.
+Proof. intros H. apply sumf_nonneg. exact H. Qed.
+
+Lemma mass_step u a :
+  wfp -> nonneg u -> (a < nAp)%nat -> sumf nOp (fun o => mass (step u a o)) <= mass u.
+Proof.
+  intros W Hu Ha. unfold mass.
+  apply Rle_trans with (sumf nSp (fun s => u s * sumf nSp (Pm m s a))).
+  - apply Req_le.
+    transitivity (sumf nOp (fun o => sumf nSp (fun s => sumf nSp (fun ns => u s * tO a o s ns)))).
+    { apply sumf_ext. intros o Ho. rewrite sumf_swap. apply sumf_ext. intros ns Hns.
+      now rewrite step_eq. }
+    rewrite sumf_swap. apply sumf_ext. intros s Hs.
+    transitivity (sumf nOp (fun o => u s * sumf nSp (fun ns => Pm m s a ns * Ob p a ns o))).
+    { apply sumf_ext. intros o Ho. rewrite <- sumf_scal. apply sumf_ext. intros ns Hns.
+      now rewrite (wp_tO W). }
+    rewrite sumf_scal. f_equal. rewrite sumf_swap. apply sumf_ext. intros ns Hns.
+    rewrite sumf_scal, (wp_obs W) by auto. lra.
+  - apply sumf_le. intros s Hs. pose proof (wf_Psub _ (wp_mdp W) s a Hs Ha) as H1.
+    pose proof (Hu s Hs). nra.
+Qed.
+
+Fixpoint Bj (M : R) (j : nat) : R := match j with O => 0 | S j' => M + gamma m * Bj M j' end.
+
+Lemma Bj_bounds M j : wfp -> 0 <= M -> 0 <= Bj M j <= M / (1 - gamma m).
+Proof.
+  intros W HM. pose proof (wf_gamma0 _ (wp_mdp W)) as G0. pose proof (wp_g1 W) as G1.
+  assert (HD : 0 <= M / (1 - gamma m)).
+  { apply Rmult_le_pos; [lra|]. left. apply Rinv_0_lt_compat. lra. }
+  induction j; cbn [Bj]; [lra|]. destruct IHj as [I1 I2]. split; [nra|].
+  assert (E : M / (1 - gamma m) = M + gamma m * (M / (1 - gamma m))) by (field; lra).
+  rewrite E. apply Rplus_le_compat_l, Rmult_le_compat_l; auto.
+Qed.
+
+Definition rbound (M : R) : Prop :=
+  forall s a, (s < nSp)%nat -> (a < nAp)%nat -> Rabs (rM s a) <= M.
+
+Lemma dot_reward_bound M u a :
+  rbound M -> nonneg u -> (a < nAp)%nat -> Rabs (dot u (fun s => rM s a)) <= mass u * M.
+Proof.
+  intros HM Hu Ha. unfold PBVI.dot, mass. numR.
+  eapply Rle_trans; [apply sumf_abs|]. rewrite <- sumf_scal_r. apply sumf_le. intros s Hs.
+  rewrite Rabs_mult, (Rabs_right (u s)) by (apply Rle_ge, Hu; auto).
+  apply Rmult_le_compat_l; [apply Hu; auto|apply HM; auto].
+Qed.
+
+Lemma Wopt_bound M j :
+  wfp -> 0 <= M -> rbound M -> forall u, nonneg u -> Rabs (Wopt j u) <= mass u * Bj M j.
+Proof.
+  intros W HM0 HM. pose proof (wf_gamma0 _ (wp_mdp W)) as G0.
+  induction j; intros u Hu.
+  - cbn [PBVI.Wopt Bj]. numR. rewrite Rabs_R0. lra.
+  - rewrite Wopt_S.
+    destruct (maxf_all_some nAp (fun a => dot u (fun s => rM s a) +
+        gamma m * sumf nOp (fun o => Wopt j (step u a o))) (wp_nA W)) as (x & Hx).
+    rewrite Hx. cbn [odflt Bj].
+    destruct (maxf_attained _ _ _ _ Hx) as (a & Ha & _ & <-).
+    eapply Rle_trans; [apply Rabs_triang|].
+    pose proof (dot_reward_bound M u a HM Hu Ha) as H1.
+    assert (H2 : Rabs (gamma m * sumf nOp (fun o => Wopt j (step u a o)))
+                 <= gamma m * (mass u * Bj M j)).
+    { rewrite Rabs_mult, (Rabs_right (gamma m)) by lra. apply Rmult_le_compat_l; [lra|].
+      eapply Rle_trans; [apply sumf_abs|].
+      apply Rle_trans with (sumf nOp (fun o => mass (step u a o) * Bj M j)).
+      - apply sumf_le. intros o Ho. apply IHj. apply step_nonneg; auto using wfp_wf0.
+      - rewrite sumf_scal_r. apply Rmult_le_compat_r; [apply (Bj_bounds M j W HM0)|].
+        apply mass_step; auto. }
+    lra.
+Qed.
+
+Lemma tail_gen M j k :
+  wfp -> 0 <= M -> rbound M -> forall u, nonneg u ->
+  Rabs (Wopt k u - Wopt (k + j) u) <= gamma m ^ k * (mass u * Bj M j).
+Proof.
+  intros W HM0 HM. pose proof (wf_gamma0 _ (wp_mdp W)) as G0.
+  induction k; intros u Hu.
+  - cbn [PBVI.Wopt plus pow]. numR. rewrite Rminus_0_l, Rabs_Ropp, Rmult_1_l.
+    apply Wopt_bound; auto.
+  - change (S k + j)%nat with (S (k + j)). rewrite !Wopt_S.
+    destruct (maxf_all_some nAp (fun a => dot u (fun s => rM s a) +
+        gamma m * sumf nOp (fun o => Wopt k (step u a o))) (wp_nA W)) as (x & Hx).
+    destruct (maxf_all_some nAp (fun a => dot u (fun s => rM s a) +
+        gamma m * sumf nOp (fun o => Wopt (k + j) (step u a o))) (wp_nA W)) as (y & Hy).
+    rewrite Hx, Hy. cbn [odflt].
+    eapply maxf_nonexp; [exact Hx|exact Hy|]. intros a Ha _.
+    match goal with |- Rabs ?e <= _ =>
+      replace e with (gamma m * (sumf nOp (fun o => Wopt k (step u a o)) -
+                                 sumf nOp (fun o => Wopt (k + j) (step u a o)))) by lra end.
+    rewrite Rabs_mult, (Rabs_right (gamma m)) by lra.
+    cbn [pow]. rewrite Rmult_assoc. apply Rmult_le_compat_l; [lra|].
+    rewrite <- sumf_minus. eapply Rle_trans; [apply sumf_abs|].
+    apply Rle_trans with (sumf nOp (fun o => gamma m ^ k * (mass (step u a o) * Bj M j))).
+    + apply sumf_le. intros o Ho. apply IHk. apply step_nonneg; auto using wfp_wf0.
+    + rewrite sumf_scal. apply Rmult_le_compat_l; [apply pow_le; lra|].
+      rewrite sumf_scal_r. apply Rmult_le_compat_r; [apply (Bj_bounds M j W HM0)|].
+      apply mass_step; auto.
+Qed.
+
+(* |Wopt k u - Wopt n u| <= ||u||_1 * gamma^k * M/(1-gamma)  for every n >= k *)
+Theorem horizon_tail M k n u :
+  wfp -> 0 <= M -> rbound M -> nonneg u -> (k <= n)%nat ->
+  Rabs (Wopt k u - Wopt n u) <= (mass u * gamma m ^ k) * (M / (1 - gamma m)).
+Proof.
+  intros W HM0 HM Hu Hkn. replace n with (k + (n - k))%nat by lia.
+  eapply Rle_trans; [apply (tail_gen M (n - k) k W HM0 HM u Hu)|].
+  pose proof (Bj_bounds M (n - k) W HM0) as [B0 B1].
+  pose proof (mass_nonneg u Hu) as Hm.
+  assert (Hp : 0 <= gamma m ^ k) by (apply pow_le, (wf_gamma0 _ (wp_mdp W))).
+  rewrite (Rmult_comm (mass u)), Rmult_assoc.
+  apply Rmult_le_compat_l; [auto|]. apply Rmult_le_compat_l; auto.
+Qed.
+
 End Theory.
